@@ -252,6 +252,9 @@ def _revert_variable(var_type, value):
         return value
     elif var_type in datatypes.FLOAT_TYPES:
         return value
+    elif value < 0:
+        # A minus sign cannot follow the 0x prefix, write negative numbers in decimal
+        return f"{value:d}"
     else:
         return f"0x{value:02X}"
 
